@@ -17,8 +17,10 @@ from .arrayhist import Viol
 
 def gen_index(rng, depth=0):
     r = rng.random()
-    if r < 0.22:
+    if r < 0.17:
         return {'k': 'int', 'i': rng.choice([0, 1, 2, 3, -1, -2, 5, 9, -7, 40, -40])}
+    if r < 0.22:     # NumPy integer scalars are basic indices too
+        return {'k': 'npint', 'i': rng.choice([0, 1, 2, -1, 3, 7]), 't': rng.choice(['int64', 'int32', 'uint8', 'int16'])}
     if r < 0.50:
         return {'k': 'slice', 'a': rng.choice([None, None, 0, 1, 2, -2, 5, -9, 30]),
                 'b': rng.choice([None, None, 0, 1, 3, -1, 9, 50, -50]), 's': rng.choice([None, None, 1, 2, 3, -1, -2])}
@@ -40,6 +42,8 @@ def build_index(ix, shape):
     k = ix['k']
     if k == 'int':
         return ix['i']
+    if k == 'npint':
+        return np.dtype(ix['t']).type(abs(ix['i']) if ix['t'].startswith('u') else ix['i'])
     if k == 'slice':
         return slice(ix['a'], ix['b'], ix['s'])
     if k == 'ellipsis':
